@@ -74,8 +74,34 @@ def r1_nearest_wins(ctx, rep, R='C09.R1'):
                       'the recursive call passes %s as %s: an inner suite would not inherit the '
                       'nearest enclosing declaration' % (norm(a) if a is not None else 'nothing', pname),
                       key='pass-down:' + attr, func=fi.qualname, where=ctx.where(fi, c))
-    # every member of a suite is visited, whatever the suite's own level is: the nearest
-    # declaration of an inner test can only win if the walk reaches it
+    visits_every_member(ctx, rep, R)
+    # re-assignments of the layer local only normalise it to a name
+    layer_loc = locs['layer'][0]
+    for n in ast.walk(fi.node):
+        if isinstance(n, ast.Assign) and is_name(n.targets[0], layer_loc) and \
+                not (isinstance(n.value, ast.Call) and dotted(n.value.func) == 'getattr'):
+            ok = isinstance(n.value, ast.Call) and call_name(n.value) == 'name_from_layer' and \
+                is_name(n.value.args[0], layer_loc)
+            rep.check(ok, R, 'the layer local is only normalised to its name',
+                      'the layer of a suite is overwritten by %s' % norm(n.value), key='layer:rewrite',
+                      func=fi.qualname, where=ctx.where(fi, n))
+    ys = [n for n in ast.walk(fi.node) if isinstance(n, ast.Yield) and isinstance(n.value, ast.Tuple)
+          and len(n.value.elts) == 2 and not isinstance(n.value.elts[1], ast.Constant)]
+    rep.check(bool(ys) and all(is_name(y.value.elts[1], layer_loc) and
+                               is_name(y.value.elts[0], ps[0]) for y in ys), R,
+              'a leaf test is yielded with the local layer (%d yield sites)' % len(ys),
+              'a test is yielded with %s' % [norm(y.value) for y in ys], key='yield:layer',
+              func=fi.qualname, where=ctx.where(fi, fi.node))
+    rep.floor(R, len(ys), 1, 'leaf yield sites')
+
+
+def visits_every_member(ctx, rep, R):
+    """every member of a suite is visited, whatever the suite's own level is: the nearest
+    declaration of an inner test can only win -- and a selected test can only run (C03) -- if the
+    walk reaches it"""
+    fi = ctx.model.func(FN)
+    ps = params(fi)
+    rec = [c for c in own_calls(fi.node) if call_name(c) == fi.name]
     g = ctx.cfg(fi)
     from .common import nodes_calling
     for c in rec:
@@ -97,24 +123,6 @@ def r1_nearest_wins(ctx, rep, R='C09.R1'):
                   'the walk into a suite is conditional (%s) or can be left early: an inner test '
                   'with its own (nearer) level/layer declaration would never be looked at' % txt,
                   key='visit-all', func=fi.qualname, where=ctx.where(fi, c))
-    # re-assignments of the layer local only normalise it to a name
-    layer_loc = locs['layer'][0]
-    for n in ast.walk(fi.node):
-        if isinstance(n, ast.Assign) and is_name(n.targets[0], layer_loc) and \
-                not (isinstance(n.value, ast.Call) and dotted(n.value.func) == 'getattr'):
-            ok = isinstance(n.value, ast.Call) and call_name(n.value) == 'name_from_layer' and \
-                is_name(n.value.args[0], layer_loc)
-            rep.check(ok, R, 'the layer local is only normalised to its name',
-                      'the layer of a suite is overwritten by %s' % norm(n.value), key='layer:rewrite',
-                      func=fi.qualname, where=ctx.where(fi, n))
-    ys = [n for n in ast.walk(fi.node) if isinstance(n, ast.Yield) and isinstance(n.value, ast.Tuple)
-          and len(n.value.elts) == 2 and not isinstance(n.value.elts[1], ast.Constant)]
-    rep.check(bool(ys) and all(is_name(y.value.elts[1], layer_loc) and
-                               is_name(y.value.elts[0], ps[0]) for y in ys), R,
-              'a leaf test is yielded with the local layer (%d yield sites)' % len(ys),
-              'a test is yielded with %s' % [norm(y.value) for y in ys], key='yield:layer',
-              func=fi.qualname, where=ctx.where(fi, fi.node))
-    rep.floor(R, len(ys), 1, 'leaf yield sites')
 
 
 def r2_level_predicate(ctx, rep, R='C09.R2'):
